@@ -88,6 +88,12 @@ func CheckHashPassword(clientResp, scramble, encryptPassword []byte) bool {
 	crypt.Write(hashBytes)
 	hash := crypt.Sum(nil)
 
+	// a mysql_native_password response is exactly as long as a SHA1 digest;
+	// anything else cannot be a valid proof (and a longer one would index past hash)
+	if len(clientResp) != len(hash) {
+		return false
+	}
+
 	// work on a copy: the caller tries the same response against further
 	// candidate passwords, so it must not be modified
 	stage1 := make([]byte, len(clientResp))
